@@ -1,11 +1,19 @@
 #!/bin/bash
 # Mutation self-test for C17.  Usage: selftest/C17/run.sh [patch ...]   (default: all patches here)
-# Each patch is applied to a scratch copy of the REPAIRED tree ($BASE, default /var/tmp/wt-C17 =
-# /repo + fixes/C17-0*.patch); the repo's own unit tests that touch angle_tools are run on the copy,
+# Each patch is applied to a scratch copy of the REPAIRED tree ($BASE if given, else a temporary copy of
+# /repo with fixes/C17-0*.patch applied where they are not yet); the repo's own unit tests that touch angle_tools are run on the copy,
 # then ./check C17 --tier quick.  Expected: M* -> exit 1 with a replay, H* -> exit 0.
-BASE=${BASE:-/var/tmp/wt-C17}
 V=$(cd "$(dirname "$0")/../.." && pwd)
 cd "$V"
+if [ -z "${BASE:-}" ]; then
+  # build the repaired tree: /repo (or $AEGEAN_REPO) + every fixes/C17-0*.patch that is not applied yet
+  BASE=$(mktemp -d /var/tmp/wt-C17-base.XXXXXX); MADE_BASE=1
+  rsync -a --exclude .git "${AEGEAN_REPO:-/repo}"/ "$BASE"/
+  for f in fixes/C17-0*.patch; do
+    (cd "$BASE" && patch -p1 -s -N --dry-run < "$V/$f" >/dev/null 2>&1 && patch -p1 -s -N < "$V/$f")
+  done
+fi
+trap '[ -n "${MADE_BASE:-}" ] && rm -rf "$BASE"' EXIT
 [ $# -eq 0 ] && set -- selftest/C17/*.patch
 for p in "$@"; do
   W=$(mktemp -d /var/tmp/wt-C17-mut.XXXXXX)
